@@ -304,3 +304,7 @@ mod tests {
         }
     }
 }
+
+#[cfg(kani)]
+#[path = "/verif/kani/arrow-buffer/buffer/ops.rs"]
+mod verif_kani;
